@@ -169,7 +169,8 @@ def c_advance_by(I, callee, args, st, n, fidx):
                facts=[st.cf(x) for x in chars])
         if cid == "main":
             mc = dict(st.fields.get("_minc", {}))
-            mc[c.pos + cnt.v] = mc.get(c.pos, 0)
+            sure = sum(1 for x in chars if eof_known(st, strm, x.abspos) is False)
+            mc[c.pos + cnt.v] = mc.get(c.pos, 0) + sure
             st.fields["_minc"] = mc
         c.pos += cnt.v
     else:
@@ -1181,6 +1182,19 @@ def it_into_iter(I, callee, args, st, n, fidx):
     a = args[0]
     if isinstance(a, Term) and a.op == "resolve_ops":
         return val(Term("iter_nonempty", (a,), "IntoIter<u8>"), st)
+    if isinstance(a, Enum) and a.path.endswith("Range") and "start" in a.fields and "end" in a.fields:
+        lo, hi = a.fields["start"], a.fields["end"]
+        rng = Term("range", (lo, hi), "Range")
+        nonempty = False
+        if isinstance(lo, Const) and lo.v == 0:
+            if isinstance(hi, Const):
+                nonempty = hi.v > 0
+            else:
+                z = Const("int", 0)
+                k1 = ("eq",) + tuple(sorted([repr(hi.key()), repr(z.key())]))
+                k2 = ("b", Term("bin:Gt", (hi, z), "bool").key())
+                nonempty = st.bfacts.get(k1) is False or st.bfacts.get(k2) is True
+        return val(Term("iter_nonempty" if nonempty else "iter_rest", (rng,), "Range"), st)
     return val(st.sym("into_iter", n.get("ty")), st)
 
 
